@@ -3,7 +3,7 @@ global size_of usize == 8;
 
 // the part of MachineState that increment_call_count touches; everything else is outside this unit
 pub struct Ball { pub stub: Vec<u64> }
-pub struct MachineState { pub cwil: CWIL, pub ball: Ball, pub block: usize, pub b: usize }
+pub struct MachineState { pub cwil: CWIL, pub ball: Ball, pub block: usize, pub b: usize, pub unifs: Ghost<Seq<Unif>> }
 pub struct Machine { pub machine_st: MachineState }
 impl Machine {
     pub uninterp spec fn block_reg(&self) -> usize;
@@ -17,3 +17,49 @@ impl MachineState {
 }
 // u128::strict_add aborts (panics) on overflow instead of wrapping: a returned value is the exact sum
 pub assume_specification [<u128>::strict_add] (a: u128, b: u128) -> (r: u128) ensures r == a + b;
+
+// ---- register decoding for the inference-limit builtins
+#[derive(Clone, Copy)] pub struct HeapCellValue { pub bits: u64 }
+#[derive(Clone, Copy)] pub struct Fixnum { pub n: i64 }
+impl Fixnum { pub fn get_num(self) -> (r: i64) ensures r == self.n { self.n } }
+pub struct OutOfBounds;
+impl Fixnum {
+    // 56-bit small integers
+    #[verifier::external_body] pub fn build_with_checked(n: u128) -> (r: Result<Fixnum, OutOfBounds>)
+        ensures n <= 0x7f_ffff_ffff_ffff ==> (r matches Ok(f) && f.n == n), n > 0x7f_ffff_ffff_ffff ==> r is Err { unimplemented!() }
+}
+#[verifier::external_body] pub struct BigPtr { _p: usize }
+impl BigPtr { pub uninterp spec fn v(&self) -> int; }
+pub enum Number { Fixnum(Fixnum), Integer(BigPtr), Float(u64), Rational(u64) }
+pub uninterp spec fn cell_number(c: HeapCellValue) -> Option<Number>;
+#[verifier::external_body] pub fn number_of_cell(c: HeapCellValue) -> (r: Result<Number, ()>) ensures match cell_number(c) { Some(n) => r == Ok::<Number, ()>(n), None => r is Err } { unimplemented!() }
+// u128::try_from(&Integer).unwrap(): panics unless 0 <= v < 2^128
+#[verifier::external_body] pub fn u128_of_integer(n: BigPtr) -> (r: u128) ensures r == n.v() { unimplemented!() }
+#[verifier::external_body] pub fn big_of_u128(n: u128) -> (r: BigPtr) ensures r.v() == n { unimplemented!() }
+pub uninterp spec fn cell_block(c: HeapCellValue) -> usize;
+#[verifier::external_body] pub fn block_of_cell(c: HeapCellValue) -> (r: usize) ensures r == cell_block(c) { unimplemented!() }
+pub struct MachineStub;
+pub struct MachineError;
+pub struct Atom;
+#[verifier::external_body] pub fn atom_of(s: &str) -> Atom { unimplemented!() }
+#[verifier::external_body] pub fn functor_stub(a: Atom, n: usize) -> MachineStub { unimplemented!() }
+pub enum ValidType { Integer }
+pub type CallResult = Result<(), MachineStub>;
+// what was unified with what (ghost)
+pub enum Unif { Small(i64, HeapCellValue), Big(int, HeapCellValue), Count(u128, HeapCellValue) }
+impl Machine {
+    pub uninterp spec fn reg(&self, i: usize) -> HeapCellValue;
+    #[verifier::external_body] pub fn deref_register(&self, i: usize) -> (r: HeapCellValue) ensures r == self.reg(i) { unimplemented!() }
+    // Machine::inference_count (unifies the count with the variable, as a small or big integer): logged
+    #[verifier::external_body] pub fn inference_count(&mut self, v: HeapCellValue, count: u128)
+        ensures final(self).machine_st.unifs@ == old(self).machine_st.unifs@.push(Unif::Count(count, v)), final(self).machine_st.cwil == old(self).machine_st.cwil,
+                forall|i: usize| final(self).reg(i) == old(self).reg(i) { unimplemented!() }
+}
+impl MachineState {
+    #[verifier::external_body] pub fn type_error(&mut self, t: ValidType, c: HeapCellValue) -> (r: MachineError) ensures *final(self) == *old(self) { unimplemented!() }
+    #[verifier::external_body] pub fn error_form(&mut self, e: MachineError, s: MachineStub) -> (r: MachineStub) ensures *final(self) == *old(self) { unimplemented!() }
+    #[verifier::external_body] pub fn unify_fixnum(&mut self, f: Fixnum, c: HeapCellValue)
+        ensures final(self).unifs@ == old(self).unifs@.push(Unif::Small(f.n, c)), final(self).cwil == old(self).cwil, final(self).b == old(self).b, final(self).block == old(self).block { unimplemented!() }
+    #[verifier::external_body] pub fn unify_big_int(&mut self, n: BigPtr, c: HeapCellValue)
+        ensures final(self).unifs@ == old(self).unifs@.push(Unif::Big(n.v(), c)), final(self).cwil == old(self).cwil, final(self).b == old(self).b, final(self).block == old(self).block { unimplemented!() }
+}
